@@ -408,3 +408,76 @@ func HarnessC13FullDuplexStream() {
 	_ = stream.CloseResponse()
 	check(verifQuiesce() == 0, "no goroutine remains after the stream")
 }
+
+// HarnessC13CancelledDuplex: a sender and a receiver goroutine on one
+// full-duplex stream whose context becomes done at a symbolic poll: the
+// sender's failing Send records the error while the receiver is reading.
+// Both goroutines must return, errors are coded, nothing is left behind -
+// and the happens-before monitor watches the state the two goroutines and
+// the library's request goroutine share (sticky error, response, pipe).
+//
+//verif:harness property=C13 stubs=json,wire sched=explore preempt=1 preemptT=2 shard=proto:3 race=on
+func HarnessC13CancelledDuplex() {
+	proto := nondetChoice("proto", 3)
+	ctx := &pollCtx{kind: nondetChoice("kind", 2)}
+	ctx.at = nondetInt("at")
+	assume(ctx.at >= 0 && ctx.at <= bound("cancelPolls", 4, 6))
+	handler := NewBidiStreamHandler("/pkg.Svc/Method", func(_ context.Context, s *BidiStream[[]byte, []byte]) error {
+		for {
+			m, err := s.Receive()
+			if err != nil {
+				if errors.Is(err, io.EOF) {
+					return nil
+				}
+				return err
+			}
+			out := []byte{(*m)[0] ^ 0xFF}
+			if err := s.Send(&out); err != nil {
+				return err
+			}
+		}
+	}, stackHandlerOptions()...)
+	client := NewClient[[]byte, []byte](&duplexTransport{handler: handler}, stackURL, stackClientOptions(proto)...)
+	stream := client.CallBidiStream(ctx)
+	var sendErr, recvErr error
+	got := 0
+	var wg sync.WaitGroup
+	wg.Add(2)
+	go func() {
+		defer wg.Done()
+		for _, v := range []byte{1, 2} {
+			m := []byte{v}
+			if err := stream.Send(&m); err != nil {
+				sendErr = err
+				break
+			}
+		}
+		_ = stream.CloseRequest()
+	}()
+	go func() {
+		defer wg.Done()
+		for {
+			_, err := stream.Receive()
+			if err != nil {
+				recvErr = err
+				return
+			}
+			got++
+			if got > 3 {
+				return
+			}
+		}
+	}()
+	wg.Wait()
+	check(got <= 2, "no more responses than requests")
+	if sendErr != nil && !errors.Is(sendErr, io.EOF) {
+		check(CodeOf(sendErr) == ctx.wantCode(), "a Send that fails because the context is done is reported as canceled / deadline_exceeded")
+	}
+	check(recvErr != nil, "the receive loop ends")
+	if recvErr != nil && !errors.Is(recvErr, io.EOF) {
+		ce, ok := asError(recvErr)
+		check(ok && ce.Code() != 0, "a Receive that fails is a coded error")
+	}
+	_ = stream.CloseResponse()
+	check(verifQuiesce() == 0, "no goroutine remains after the cancelled stream")
+}
